@@ -673,7 +673,65 @@ func VH19e_inherit() {
 		verif.Reach("listener-inherits")
 		pushDown(lab+"/listener", sock, l, tranList[ti].name != "inproc", false)
 	}
+	pushDownMany(lab, sock, ti)
 	sock.Close()
+}
+
+// pushDownMany: several dialers and listeners of different transports on one socket (an inproc one - which supports
+// none of the options - first, in the middle or last). A socket-level option set afterwards is seen by ALL the
+// endpoints that have the option, or by none of them: never by some.
+func pushDownMany(lab string, sock mangos.Socket, ti int) {
+	lab += "/many-endpoints"
+	order := verif.Choice("inproc-position", 3)
+	addrs := []string{tranList[ti].addr + "1", "tcp://127.0.0.1:6001", "ipc:///tmp/verif-many.sock"}
+	in := "inproc://many"
+	switch order {
+	case 0:
+		addrs = append([]string{in}, addrs...)
+	case 1:
+		addrs = append(addrs[:1:1], append([]string{in}, addrs[1:]...)...)
+	case 2:
+		addrs = append(addrs, in)
+	}
+	var eps []optObject
+	for i, a := range addrs {
+		if tranList[ti].name == "inproc" && i == 0 && order != 0 {
+			a = "inproc://many-b"
+		}
+		if d, err := sock.NewDialer(a, nil); err == nil {
+			eps = append(eps, d)
+		}
+		if l, err := sock.NewListener(a+"L", nil); err == nil {
+			eps = append(eps, l)
+		}
+	}
+	nrx := verif.Int("many-maxrx")
+	verif.Assume(verif.And(nrx >= 0, nrx <= 1<<30))
+	old, _ := sock.GetOption(mangos.OptionMaxRecvSize)
+	verif.Assume(nrx != old.(int))
+	nd := verif.Duration("many-reconn")
+	verif.Assume(verif.And(nd >= 1, nd <= time.Minute))
+	oldD, _ := sock.GetOption(mangos.OptionReconnectTime)
+	verif.Assume(nd != oldD.(time.Duration))
+	check := func(name string, val interface{}, eq func(interface{}) bool) {
+		verif.Assert(sock.SetOption(name, val) == nil, lab+"/"+name+"/socket-set")
+		have, reached := 0, 0
+		for _, ep := range eps {
+			g, err := ep.GetOption(name)
+			if err != nil {
+				continue
+			}
+			have++
+			if eq(g) {
+				reached++
+			}
+		}
+		verif.Assert(have >= 2, lab+"/"+name+"/fewer-than-two-endpoints-have-the-option")
+		verif.Assert(reached == 0 || reached == have, lab+"/"+name+"/socket-option-reached-some-endpoints-but-not-all")
+		verif.Reach("push-down-many")
+	}
+	check(mangos.OptionMaxRecvSize, nrx, func(g interface{}) bool { v, ok := g.(int); return ok && v == nrx })
+	check(mangos.OptionReconnectTime, nd, func(g interface{}) bool { v, ok := g.(time.Duration); return ok && v == nd })
 }
 
 type optObject interface {
